@@ -19,6 +19,18 @@ Theorem C16_defaults :
 Proof. repeat split; reflexivity. Qed.
 Print Assumptions C16_defaults.
 
+(* whatever the configuration held before (weaker MinVersion / ClientAuth included), after the call the
+   fields that decide who is admitted are the defaults: the assignments are unconditional *)
+Theorem C16_overwrites_weaker_settings : forall c0 c,
+  apply_assignments gen_DefaultServerTLSConfig c0 = Some c -> min_version c = 771 /\ cauth c = RequireAndVerifyClientCert.
+Proof. intros c0 c H. cbn in H. injection H as <-. split; reflexivity. Qed.
+Print Assumptions C16_overwrites_weaker_settings.
+
+Theorem C16_client_overwrites_weaker_version : forall c0 c,
+  apply_assignments gen_DefaultClientTLSConfig c0 = Some c -> min_version c = 771 /\ insecure_skip_verify c = insecure_skip_verify c0.
+Proof. intros c0 c H. cbn in H. injection H as <-. split; reflexivity. Qed.
+Print Assumptions C16_client_overwrites_weaker_version.
+
 (* server: for EVERY peer, a completed handshake means TLS >= 1.2 and a certificate that verifies
    against the client-CA pool; nothing else gets as far as the session (callbacks, handlers, responses) *)
 Theorem C16_server : forall c p, default_server_cfg = Some c -> server_handshake_ok c p = true ->
